@@ -26,6 +26,23 @@ def cases(draw, tier):
     t = draw(st.sampled_from(gen.TYPES))
     nmax = 3 if tier == "quick" else 4
     sc = draw(gen.state_case(types=[t], n=(1, nmax), nh=(1, 3), na=(1, 3), scales=[0.05, 0.5, 2.0, 2.0, 8.0, 30.0], bound=80.0))
+    if draw(st.integers(0, 4)) == 0:
+        # value regime: strongly polarised amplitude network (visible biases of magnitude 12-25, either sign): importance-sampling ratios of
+        # single pairs span many orders of magnitude (1e6 and far beyond) while the exact averages stay in [0, 1]
+        sc["am"]["b"] = [draw(st.sampled_from([-1.0, 1.0])) * draw(st.floats(12.0, 25.0, allow_nan=False, width=64)) for _ in range(sc["n"])]
+        sc["polarised"] = True
+    if sc["n"] >= 2 and draw(st.integers(0, 5)) == 0:
+        # value regime: a strongly CORRELATED amplitude network (one hidden unit that switches on only when every site is 1, balanced by the
+        # visible biases): |00..0> and |11..1> dominate, so single-pair importance ratios reach e^(w/2) >= 1e6 while the averages stay in [0, 1]
+        w = draw(st.floats(28.0, 36.0, allow_nan=False, width=64))
+        n_ = sc["n"]
+        sc["am"]["W"][0] = [w] * n_
+        sc["am"]["c"][0] = -w * (n_ - 1)
+        sc["am"]["b"] = [-w / n_] * n_
+        for r_ in range(1, len(sc["am"]["W"])):
+            sc["am"]["W"][r_] = [x / (1.0 + abs(x)) for x in sc["am"]["W"][r_]]
+            sc["am"]["c"][r_] = sc["am"]["c"][r_] / (1.0 + abs(sc["am"]["c"][r_]))
+        sc["correlated"] = True
     c = {"state": sc, "batch": draw(gen.index_list(sc["n"], 3, 7)) if draw(st.integers(0, 5)) else draw(gen.index_list(sc["n"], 60, 90)), "fmt": draw(st.integers(0, 2))}
     if draw(st.booleans()):
         # second parameter set written in place into the same object after the first evaluations (same batches evaluated again)
@@ -73,6 +90,8 @@ def check(case):
         ref_state_prec = R.rho_ref(am, ph, V) if sc["type"] == "density" else R.psi_ref(am, ph, V)
         # the documented importance weight of a mixed state divides by probability(sigma), which sums the auxiliary units in product form too
         den_prec = torch.exp(R.log_prob_visible(am, V)) if sc["type"] == "density" else None
+
+    prec_pair = 1e-10 + (1e-13 / max(gen.min_aux_factor(sc), 1e-12) if sc["type"] == "density" else 0.0)      # see c02.py
 
     def pair_ref(i, j, A, ref_state=ref_state):
         """SWAP_A value of the ordered pair (i, j): Re[w(i'|i) w(j'|j)] with the library's documented importance weights"""
@@ -131,7 +150,7 @@ def check(case):
                     else:
                         wp = (ref_state_prec[ip_] / ref_state_prec[i]) * (ref_state_prec[jp_] / ref_state_prec[j])
                     wmag, prp = float(wp.abs()), float(wp.real)
-                    require(abs(Fm[i, j] - prp) <= 1e-10 * wmag + 1e-300, "precision:pair-value",
+                    require(abs(Fm[i, j] - prp) <= prec_pair * wmag + 1e-300, "precision:pair-value",
                             f"SWAP value of the pair ({i},{j}) for A={A} is not accurate to double precision: {Fm[i, j]!r} vs {prp!r}")
                     held.append((out, out.detach().clone()))
                     if len(held) > 4:
